@@ -6,6 +6,7 @@ use std::io::Write;
 
 mod common;
 use common::Emitter;
+mod c03;
 mod c15;
 mod stages;
 mod store;
@@ -73,6 +74,8 @@ fn main() {
 
     match prop.as_str() {
         "C15" => c15::run(&opts, &mut Emitter::new(&mut out, opts.only)),
+        "C03" => c03::run(&opts, &mut Emitter::new(&mut out, opts.only), false),
+        "C04" => c03::run(&opts, &mut Emitter::new(&mut out, opts.only), true),
         "C06" => stages::run_c06(&opts, &mut Emitter::new(&mut out, opts.only)),
         "C07" => stages::run_c07(&opts, &mut Emitter::new(&mut out, opts.only)),
         _ => usage(),
